@@ -1,4 +1,5 @@
 import Lean.Data.Json
+import PebblesVerif.Basic.J
 /-! JSON helpers shared by the driver handlers (core Lean only). -/
 namespace PebblesVerif.Driver
 open Lean
@@ -24,5 +25,25 @@ def natArr (l : List Nat) : Json := Json.arr (l.map (fun (n : Nat) => (toJson n)
 def strArr (l : List String) : Json := Json.arr (l.map Json.str).toArray
 def jarr (l : List Json) : Json := Json.arr l.toArray
 def obj (kvs : List (String × Json)) : Json := Json.mkObj kvs
+
+/-- wire JSON → model value (numbers keep their textual form) -/
+partial def toJ : Json → J
+  | .null => .null
+  | .bool b => .bool b
+  | .num n => .num (toString n)
+  | .str s => .str s
+  | .arr a => .arr (a.toList.map toJ)
+  | .obj kvs => .obj (kvs.toList.map (fun (k, v) => (k, toJ v)))
+
+/-- model value → wire JSON (a numeral that does not parse is sent as a string) -/
+partial def ofJ : J → Json
+  | .null => .null
+  | .bool b => .bool b
+  | .num r => match Json.parse r with
+    | .ok (.num n) => .num n
+    | _ => .str r
+  | .str s => .str s
+  | .arr xs => .arr (xs.map ofJ).toArray
+  | .obj kvs => Json.mkObj (kvs.map (fun (k, v) => (k, ofJ v)))
 
 end PebblesVerif.Driver
